@@ -554,7 +554,7 @@ func filterEvs(x sx.X, outlined map[string]bool) []string {
 	var out []string
 	for _, e := range x.Xs {
 		if e.Xs[0].S == "0" || (e.Xs[1].S == "ol" && !outlined[e.Xs[0].S]) ||
-			((e.Xs[1].S == "bg" || e.Xs[1].S == "bd") && !outlined["bg"+e.Xs[0].S]) {
+			((e.Xs[1].S == "bg" || e.Xs[1].S == "bd") && !outlined["bg"+e.Xs[0].S] && e.Xs[0].S != "253" && e.Xs[0].S != "254") {
 			continue // nothing visible to compare: no outline / no background and border (table wrapper, rows)
 		}
 		out = append(out, e.String())
@@ -602,7 +602,7 @@ func Run(tier string, seed uint64, modelPath, repo string, out *res.Result) erro
 	if tier == "smoke" {
 		n = 300
 	}
-	out.Rule = "5/6 random trees of <=9 block boxes (depth<=4) x position{static,relative,absolute} x z-index{auto,-2,-1,0,1,1,2} x float x subsets of {opacity,transform,overflow} x outline, tables (rows of coloured cells holding inline content or blocks) among the blocks, opacity in {0, 0.001, 0.25, 0.5, 0.999, 1}, leaf boxes with inline content (text runs, inline-blocks, floats inside the line, plain and positioned spans, nested), 1/6 wide documents of 13-40 sibling positioned contexts with tied unsorted z-index values (optionally under a common context); unique background/border/outline colours, texts and translations; " +
+	out.Rule = "5/6 random trees of <=9 block boxes (depth<=4) x position{static,relative,absolute} x z-index{auto,-2,-1,0,1,1,2} x float x subsets of {opacity,transform,overflow} x outline, tables (rows of coloured cells holding inline content or blocks) among the blocks, opacity in {0, 0.001, 0.25, 0.5, 0.999, 1}, leaf boxes with inline content (text runs, inline-blocks, floats inside the line, plain and positioned spans, nested), 1/6 wide documents of 13-40 sibling positioned contexts with tied unsorted z-index values (optionally under a common context); @page background and root/body (canvas) background on half of the documents; unique background/border/outline colours, texts and translations; " +
 		"the sequence of fills, DrawText calls and group brackets (opacity group, transform scope, overflow clip) is compared with the Lean model of stacking.go run on the implementation's laid-out tree (corr) and with the Lean Appendix E spec (judge); corpus cases first; " +
 		"non-trivial = at least one box makes a stacking context, is positioned or floats; distinct by document text"
 	render.Quiet()
@@ -645,7 +645,19 @@ func Run(tier string, seed uint64, modelPath, repo string, out *res.Result) erro
 			number(c, &next)
 		}
 		var b strings.Builder
-		b.WriteString(`<style>@page{size:400px 600px;margin:10px}html,body{margin:0;font-size:8px}</style><body>`)
+		// page-level layers: @page background (page box incl. margins), canvas background from the root element or,
+		// when the root has none, propagated from <body>
+		pageBg, rootBg := "", ""
+		if cr.P(1, 2) {
+			pageBg = ";background:" + bgCol(254)
+		}
+		switch cr.Intn(4) {
+		case 0:
+			rootBg = "html{background:" + bgCol(253) + "}"
+		case 1:
+			rootBg = "body{background:" + bgCol(253) + "}"
+		}
+		fmt.Fprintf(&b, `<style>@page{size:400px 600px;margin:10px%s}html,body{margin:0;font-size:8px}%s</style><body>`, pageBg, rootBg)
 		for _, c := range root.children {
 			c.html(&b)
 		}
@@ -700,7 +712,20 @@ func one(m *mp.Model, src string, caseSeed uint64, fonts text.FontConfiguration,
 	}
 	// the root element's box
 	tree := abstract(doc.Pages[0].Children[0], nil)
-	ans, err := m.Ask(sx.L(sx.A("order"), tree))
+	// the page box's own background and the canvas background, as the implementation laid them out
+	pb, cb := sx.A("none"), sx.A("none")
+	if bg := doc.Pages[0].Background; bg != nil && bg.Color.A > 0 {
+		pb = sx.I(254)
+		f["page-background"] = true
+	}
+	if bg := doc.Pages[0].CanvasBackground; bg != nil && bg.Color.A > 0 {
+		cb = sx.I(253)
+		f["canvas-background"] = true
+	}
+	if pb.S != "none" && cb.S != "none" {
+		out.Hit("page+canvas-background")
+	}
+	ans, err := m.Ask(sx.L(sx.A("page"), pb, cb, tree))
 	if err != nil {
 		return err
 	}
